@@ -698,3 +698,73 @@ pub fn seg_expire_partial_clear_cases(prop: &'static str) -> BoxedStrategy<Case>
         })
         .boxed()
 }
+
+// ------------------------------------------------------------------------------------------------
+// locality: a sweep line works in one neighbourhood of the key space. A tree of 40-250 entries is
+// built over the whole universe, then every operation of the history addresses a window of 6-16
+// adjacent keys, without per-step observation batteries (a look can refresh or repair what the
+// previous operation left behind). Conjunctions of neighbouring operations - remove two neighbours
+// and re-insert, query between two keys and insert there, handle to the predecessor of what was just
+// inserted - become frequent instead of needing a coincidence of uniformly drawn keys.
+
+pub fn ord_local_cases(prop: &'static str, family: &'static str, coll: &'static str, vals: Vec<&'static str>, w: [u32; 10]) -> BoxedStrategy<Case> {
+    (pick(&[64i64, 128, 400]), caps(), pick(&vals), 6..=16i64)
+        .prop_flat_map(move |(u, cap, val, width)| {
+            (0..=u - width - 1, 20..=(u * 2 / 3).min(250) as usize).prop_flat_map(move |(base, nfill)| {
+                let fill = prop::collection::vec((0..=u - 1).prop_map(|k| RawOp::new(O_INS, &[k])), nfill..=nfill);
+                let win = base..=base + width;
+                // probe arguments are key + 1
+                let pwin = base + 1..=base + width + 1;
+                let table = vec![
+                    spec(w[0], O_INS, &[win.clone()]),
+                    spec(w[1], O_DEL, &[win.clone(), 1..=3]),
+                    spec(w[2], O_GET, &[pwin.clone()]),
+                    spec(w[5], O_HREAD, &[pwin.clone(), 0..=2]),
+                    spec(w[6], O_HWRITE, &[pwin.clone()]),
+                    spec(w[7], O_HDEL, &[pwin.clone()]),
+                    spec(w[8], O_STEP, &[win.clone(), 0..=1]),
+                    spec(1, O_INS, &[0..=u - 1]),
+                    spec(1, O_DEL, &[0..=u - 1, 1..=3]),
+                ];
+                (fill, ops_strategy(&table, 20..=160)).prop_map(move |(mut ops, local)| {
+                    ops.extend(local);
+                    let mut c = Case::new(prop, family);
+                    c.set("coll", coll).set("val", val).set("cap", cap).set("U", u).set("dense", 0).set("local", 1);
+                    c.ops = ops;
+                    c
+                })
+            })
+        })
+        .boxed()
+}
+
+pub fn key_local_cases(prop: &'static str, coll: &'static str, w: [u32; 8], export: bool) -> BoxedStrategy<Case> {
+    (pick(&[64i64, 128, 400]), caps(), 6..=16i64, 2..=12i64)
+        .prop_flat_map(move |(u, cap, width, dmax)| {
+            (0..=u - width - 1, 20..=(u * 2 / 3).min(250) as usize).prop_flat_map(move |(base, nfill)| {
+                let fill = prop::collection::vec((0..=u - 1, 1..=dmax * 3).prop_map(|(k, d)| RawOp::new(K_INS, &[k, d])), nfill..=nfill);
+                let win = base..=base + width;
+                let pwin = base + 1..=base + width + 1;
+                let table = vec![
+                    spec(w[0], K_INS, &[win.clone(), 0..=dmax]),
+                    spec(w[1], K_FL, &[pwin.clone()]),
+                    spec(w[2], K_FLE, &[pwin.clone()]),
+                    spec(w[3], K_FLEBY, &[pwin.clone(), 0..=2]),
+                    spec(w[4], K_GET, &[pwin.clone()]),
+                    spec(w[5], K_ADV, &[0..=2]),
+                    spec(1, K_INS, &[0..=u - 1, 0..=dmax]),
+                ];
+                (fill, ops_strategy(&table, 20..=160), 0..=dmax).prop_map(move |(mut ops, local, dt)| {
+                    ops.extend(local);
+                    if export {
+                        ops.push(RawOp::new(K_EXPORT, &[dt]));
+                    }
+                    let mut c = Case::new(prop, "key");
+                    c.set("coll", coll).set("cap", cap).set("U", u).set("local", 1);
+                    c.ops = ops;
+                    c
+                })
+            })
+        })
+        .boxed()
+}
